@@ -99,6 +99,7 @@ func (ft *FuncTr) instr(b *ssa.BasicBlock, st *State, at *Term, in ssa.Instructi
 		ma := ft.h.mapArrs(mt)
 		ft.h.setArr(st, ma.dom, Store(ft.h.arr(st, ma.dom, ma.domS), pc, ConstArray(SArray(ma.k, SBool), TFalse)))
 		ft.h.setArr(st, ma.card, Store(ft.h.arr(st, ma.card, SArray(SPtr, SInt)), pc, IntLit(0)))
+		ft.h.setArr(st, ma.val, Store(ft.h.arr(st, ma.val, ma.valS), pc, ConstArray(SArray(ma.k, ma.v), ft.w.zero(ft.d, mt.Elem()))))
 		ft.vals[x] = Val{T: pc}
 	case *ssa.MakeSlice:
 		return false, ft.makeSlice(st, at, x)
